@@ -63,7 +63,6 @@ func newVC(prog *Prog, fn *ssa.Function, fc *FuncContract, reg *KeyRegistry, dis
 		vc.safe = true
 	}
 	if fc != nil && fc.Flags["locksafe"] {
-		vc.safe = true
 		vc.locksafe = true
 	}
 	if fc != nil && fc.Flags["nooverflow"] {
